@@ -10,6 +10,8 @@ import (
 	"sort"
 	"strings"
 
+	"github.com/simimpact/srsim/pkg/model"
+
 	"verif/harness/term"
 )
 
@@ -23,6 +25,9 @@ type genOpts struct {
 	// and faces 2-4 enemies of which one is frail (dies from any hit) and the others outlive the battle:
 	// multi-hit abilities then lose a target in the middle of the ability
 	showcase bool
+	// team: keys of the line-up (set by genSpec): scripts may name a team mate as the target of an
+	// ability that aims at allies
+	team []string
 }
 
 var promoCaps = []int{20, 30, 40, 50, 60, 70, 80}
@@ -97,13 +102,20 @@ func ifThen(cond, body string) string {
 
 // genFragment: the part of a well-formed script that belongs to character c (default action,
 // skill callback, usually an ult callback); it names no other character
-func genFragment(r *term.Rng, c string) string {
+func genFragment(r *term.Rng, c string, team []string) string {
 	var sb strings.Builder
 	ev := func() string { return term.Pick(r, evaluators) }
 	fmt.Fprintf(&sb, "set_default_action(%s, attack(%s)); ", c, ev())
 	// skill callback
 	fmt.Fprintf(&sb, "register_skill_cb(%s, fn () { ", c)
-	switch r.Intn(5) {
+	kind := r.Intn(5)
+	if cc, ok := getCatalogs().charCfg[c]; ok && len(team) > 0 && cc.SkillInfo.Skill.TargetType == model.TargetType_ALLIES && r.Chance(1, 2) {
+		// a concrete team mate as the target of a skill that aims at allies (guarded: a named target must be alive)
+		m := term.Pick(r, team)
+		fmt.Fprintf(&sb, "if is_alive(%s) { return skill(%s); } ", m, m)
+		kind = 1
+	}
+	switch kind {
 	case 0:
 		fmt.Fprintf(&sb, "return skill(%s); ", ev())
 	case 1:
@@ -255,7 +267,7 @@ func genChar(r *term.Rng, contentCat *catalogs, k string, o genOpts) term.T {
 		term.L(traces...),
 		term.I(int64(r.Range(1, 9))), term.I(int64(r.Range(1, 15))), term.I(int64(r.Range(1, 15))), term.I(int64(r.Range(1, 15))),
 		term.C("LC", term.S(cone), term.I(int64(clvl)), term.I(int64(cmax)), term.I(int64(r.Range(1, 5)))),
-		term.L(rels...), term.I(int64(energy)), term.I(int64(hp)), term.S(genFragment(r, k)))
+		term.L(rels...), term.I(int64(energy)), term.I(int64(hp)), term.S(genFragment(r, k, o.team)))
 }
 
 func genEnemy(r *term.Rng, contentCat *catalogs) term.T {
@@ -316,6 +328,7 @@ func genSpec(r *term.Rng, o genOpts) term.T {
 		team[0], team[j] = team[j], team[0]
 	}
 	chars := []term.T{}
+	o.team = team
 	for _, k := range team {
 		chars = append(chars, genChar(r, contentCat, k, o))
 	}
